@@ -559,6 +559,10 @@ func runC18(p *core.Program, r *core.Report) {
 		}
 		_ = al
 	}
+	// the layer below: Before and Once answer from a cache entry stored without a
+	// deadline; that entry must stay - 'expired' has to mean the same thing for the
+	// lookup and for the background cleanup (OD1 of the cache, shared with C08/C17)
+	expiryAgreement(p, r, p.FuncsInFiles("cache/cache.go"))
 	r.Floor("PT1", 5)
 	r.Floor("PT4", 2)
 }
